@@ -16,8 +16,12 @@ EXPLANATION = (
     "_generate_mapping and generate_for_dumping returns it unchanged; loader and dumper of one provider feed the same "
     "case expression (modulo the documented reversal) into the same generator object. (3) Flag exact value: the factory "
     "refuses negative and non-contiguous masks before the loader exists and the loader's range test uses that mask. "
-    "(4) Exact-value enum loader rejects members themselves (Enum(member) is member). The exception-escape analysis of "
-    "the enum/flag loader closures themselves is part of C04."
+    "(4) Exact-value enum loader rejects members themselves (Enum(member) is member). (5) The predicates of the enum and "
+    "the flag provider families are evaluated abstractly on {plain Enum class, Flag class, other class} and must select "
+    "exactly their family. (6) A `map` keyed by members is matched on (class, name), names are looked up in a table without "
+    "member keys (members of str/int mixed-in enums hash and compare as their values). (7) Silent loss: the inversion needs "
+    "an injectivity refusal, the member-name-list dumper a residual refusal (both absent today: known findings). The "
+    "exception-escape analysis of the enum/flag loader closures themselves is part of C04."
 )
 RULE = "one evaluation = one partial-function call site / one inversion or pairing obligation"
 ASSUMPTIONS = ["enum classes have at least one member", "bijectivity for a concrete enum (injective name mapping, alias "
